@@ -19,11 +19,15 @@ import (
 var VerifC05SocketDone = errors.New("verif: socket drained")
 
 type verifC05Conn struct {
-	pkts  [][]byte
-	addrs []string
+	pkts   [][]byte
+	addrs  []string
+	onRead func(more bool)
 }
 
 func (c *verifC05Conn) ReadFrom(b []byte) (int, string, error) {
+	if c.onRead != nil {
+		c.onRead(len(c.pkts) > 0) // the loop is about to handle the next packet of the session
+	}
 	if len(c.pkts) == 0 {
 		return 0, "", VerifC05SocketDone
 	}
@@ -48,6 +52,12 @@ func (io *verifC05IO) UDP(reqAddr string) (UDPConn, error)                  { re
 func (io *verifC05IO) CheckUDP(reqAddr string) error                        { return nil }
 
 func VerifC05ReceiveLoop(id uint32, pkts [][]byte, addrs []string, send func(buf []byte, m *protocol.UDPMessage) error) error {
+	return VerifC05ReceiveLoopHook(id, pkts, addrs, send, nil)
+}
+
+// VerifC05ReceiveLoopHook is VerifC05ReceiveLoop with a callback at every socket read: ONE loop
+// instance (one session) relays all the packets, the callback marks the packet boundaries.
+func VerifC05ReceiveLoopHook(id uint32, pkts [][]byte, addrs []string, send func(buf []byte, m *protocol.UDPMessage) error, onRead func(more bool)) error {
 	var exitErr error
 	e := &udpSessionEntry{
 		ID:       id,
@@ -55,7 +65,7 @@ func VerifC05ReceiveLoop(id uint32, pkts [][]byte, addrs []string, send func(buf
 		Last:     utils.NewAtomicTime(time.Now()),
 		IO:       &verifC05IO{send: send},
 		ExitFunc: func(err error) { exitErr = err },
-		conn:     &verifC05Conn{pkts: pkts, addrs: addrs},
+		conn:     &verifC05Conn{pkts: pkts, addrs: addrs, onRead: onRead},
 	}
 	e.receiveLoop()
 	return exitErr
